@@ -16,37 +16,56 @@ TECHNIQUE = ("Lean 4 theorems over an executable transcription of share_placemen
              "_distribute_homeless_shares call observed inside real runs, plus the graph builders); the caller PeerSelector is "
              "modelled as a state machine (plan = share_placement of the current state) and driven through operation "
              "histories (add_peer / add_peer_with_share / mark_readonly_peer / mark_bad_peer / get_share_placements), every "
-             "returned plan compared with the model and checked against the state; one real Tahoe2ServerSelector run per seed on "
-             "the in-process grid with a server failing allocate_buckets; re-uploads on the grid after servers turned read-only "
-             "(the selector state at the first plan vs the shares on disk and vs the Lean toldState); monitor = the three "
-             "clauses of the statement with a brute-force / matching optimum")
-LEVEL_TEXT = ("over the model of the repaired code (now the repository's code): placement_total, placement_returns, "
-              "readonly_only_existing and spread_maximal (no placement respecting the read-only clause uses more distinct servers; "
-              "three-phase composition proved via the C08 maximum-matching theory) proved in Lean for all inputs; PeerSelector as a "
-              "state machine with plan_is_fresh; the model of the code before the repairs carries machine-checked counterexamples; "
-              "the consumer loop Tahoe2ServerSelector.get_shareholders is monitored on the in-process grid, not modelled; the model "
-              "is tied to the code by exact comparison on exhaustive small scopes and selector histories")
-LEVEL_NOTE = ("Lean kernel + standard axioms; model hand-written, tied by correspondence on ids < 8 where CPython's set order is "
-              "ascending; larger layouts and byte-string ids are checked at property level only")
+             "returned plan compared with the model and checked against the state; the allocation rounds of "
+             "Tahoe2ServerSelector.get_shareholders are modelled as far as the selector sees them (Answer, roundOps, roundStates: "
+             "exactly the failed or timed-out queries demote) and compared at every get_share_placements() of real selections "
+             "on the in-process grid with a server that raises or never answers (15 s query timeout on the virtual clock) on "
+             "allocate_buckets / get_buckets, first / second / last server asked; re-uploads on the grid after servers turned "
+             "read-only (selector state at the first plan vs the shares on disk and vs the Lean toldState); fixed corpus first "
+             "(one input per seeded change C07-a..e and per repaired defect), VERIF_CORPUS_ONLY=1 runs only it; monitor = the "
+             "three clauses of the statement with a brute-force / matching optimum, failed-server-still-writable, "
+             "existing-share-relation-wrong, selection-unhappy-although-achievable")
+LEVEL_TEXT = ("proved in Lean for all inputs, over the model of the repository's code (Cfg.fixed; the two defects found were repaired in "
+              "/repo by 9abb482 and b0ebc0d): placement_total, placement_returns, readonly_only_existing, spread_maximal / "
+              "spread_ge_matching (no placement respecting the read-only clause uses more distinct servers; three-phase "
+              "composition via the C08 maximum-matching theory), phase_is_maximum_matching; for the caller: plan_is_fresh, "
+              "state_ignores_gets, told_state_is_ground_truth, failed_server_not_writable, plan_after_failed_allocation, and per "
+              "allocation round round_demotes_every_failure (error, lost connection and query timeout alike), "
+              "round_changes_nothing_else, failed_earlier_stays_out, plan_after_round_spread_maximal, "
+              "plan_after_round_reaches_happiness; the model of the code before the repairs (Cfg.asIs) carries machine-checked "
+              "counterexamples; no _partial theorem remains. Correspondence + monitor only: that get_shareholders feeds the selector "
+              "exactly toldState / roundOps. Monitor only (not modelled): the loop's exit tests and the UploadUnhappinessError verdict "
+              "(they depend on the trackers' allocated buckets; the value compared is C08's upload_effective_happiness)")
+LEVEL_NOTE = ("Lean kernel + standard axioms; model hand-written, tied by exact correspondence on ids < 8 where CPython's set order is "
+              "ascending (exhaustive small scopes, selector histories, grid selections and re-uploads); larger layouts and "
+              "byte-string ids are checked at property level only")
 RULE = ("a case is one call of share_placement (or one observed internal helper call, or one direct helper call) on a generated "
         "layout; distinct = distinct (function, arguments incl. dict order); non-trivial = at least one pre-existing share "
         "(helpers: at least one peer and one share); a selector history counts one case (non-trivial = it records at least "
-        "one existing share), every get_share_placements() in it is checked; a grid selection run counts one case")
+        "one existing share), every get_share_placements() in it is checked; a grid selection run and a grid re-upload count one "
+        "case each (every plan of the run is checked)")
 TRUSTED = [
     "lean/Tahoe/Happiness/Placement.lean is a hand transcription of immutable/happiness_upload.py (share_placement and helpers)",
     "CPython iterates a set of ints < 8 in ascending order and PriorityQueue.get returns the least tuple (the model relies on "
     "both for the step-by-step correspondence; the property clauses are checked on byte-string ids as well)",
-    "the harness observes internal calls by wrapping the module globals _calculate_mappings and _distribute_homeless_shares at run time",
-    "lean/Tahoe/Happiness/Selector.lean is a hand transcription of upload.py PeerSelector; the harness keeps its own reference "
-    "state from the meaning of the operations and never reads the plan's inputs back from the object under test",
-    "harness/grid.py (in-process grid from production classes, seeded scheduler, virtual clock) for the Tahoe2ServerSelector run",
+    "the harness observes internal calls by wrapping the module globals _calculate_mappings and _distribute_homeless_shares, and "
+    "PeerSelector.get_share_placements on the grid, at run time",
+    "lean/Tahoe/Happiness/Selector.lean is a hand transcription of upload.py PeerSelector and of what "
+    "Tahoe2ServerSelector._buckets_allocated reports to it (only Failure answers, as mark_readonly_peer with KeyError swallowed); "
+    "the harness keeps its own reference state from the meaning of the operations and never reads the plan's inputs back from "
+    "the object under test",
+    "harness/grid.py (in-process grid from production classes, seeded scheduler, virtual clock, fault injection error / hang) for "
+    "the Tahoe2ServerSelector and re-upload runs",
 ]
 ASSUMPTIONS = [
     "domain of the statement: at least one writable server; writable and read-only sets disjoint; every server with "
     "pre-existing shares is in one of the two sets; pre-existing share numbers are among the shares to place "
-    "(what PeerSelector builds for one encoding); entries of servers outside both sets (bad servers) are outside the domain",
+    "(what PeerSelector builds for one encoding); entries of servers outside both sets (bad servers) are outside the domain: "
+    "there the code may hand a share to a bad server, e.g. share_placement({'w0'},{},{0,1},{'b0':{1}}) gives {1:'b0'}",
     "selector histories follow the uploader's discipline for the monitored plans (a server is marked bad only while it has no "
     "recorded shares, as in _handle_existing_response); plans requested in other states are compared with the model only",
+    "grid selections use 6 servers, k=2, happy=4, n=4 with one failing server (5 healthy servers for 4 shares), re-uploads 4-6 "
+    "servers with 1-2 read-only ones (readonly_storage; a full disk is not simulated)",
 ]
 
 SIG_RO = "ro-peer-assigned-share-it-lacks"
